@@ -59,7 +59,7 @@ def gen_dyn_universe(rng: random.Random, ideal_origins=False, name_mode="unique"
             a, b = rng.sample(range(nl), 2)
             links[b] = dict(links[a], name=links[b]["name"])
     return {
-        "user_subclasses": rng.random() < 0.15,
+        "user_subclasses": rng.choice([True, "falsy"]) if rng.random() < 0.15 else False,
         "nodes": [{"name": x} for x in names("N", nn)],
         "links": links,
         "origins": [gen_origin_spec(rng, x, kinds) for x in names("O", no)],
